@@ -198,6 +198,29 @@ func musLiteralTrees(maxLen int) [][]musNode {
 	return trees
 }
 
+// musPunctuationTrees: ordinary punctuation characters - the backslash, '$', the characters that are operators inside a
+// tag ('#', '/', '^', '!'), a quote, '&', '.' - as the last character of the text before a tag, as the first character
+// after one, doubled and next to a letter, for each kind of tag: a variable, an escaped variable, a comment, the opening
+// and the closing tag of a section and of an inverted section (double and triple braces, several spellings). Outside a
+// tag none of them has a meaning: the text is rendered verbatim and the tags next to it are still tags.
+func musPunctuationTrees() [][]musNode {
+	var trees [][]musNode
+	for _, ch := range []string{"\\", "$", "#", "/", "^", "!", "\"", "&", "."} {
+		for ti, t := range []string{ch, "x" + ch, ch + "x", ch + ch} {
+			txt := musNode{kind: "text", text: t}
+			trees = append(trees,
+				[]musNode{txt, {kind: "var", text: "a"}},
+				[]musNode{{kind: "var", text: "a", spelling: 1}, txt},
+				[]musNode{txt, {kind: "esc", text: "a"}, txt},
+				[]musNode{txt, {kind: "comment", text: " c "}, txt, {kind: "var", text: "b"}},
+				[]musNode{txt, {kind: "section", text: "a", spelling: ti, body: []musNode{txt}}, txt},
+				[]musNode{txt, {kind: "section", text: "b", inverted: true, spelling: ti + 4, body: []musNode{txt}}, txt},
+				[]musNode{{kind: "section", text: "a", spelling: ti + 4, body: []musNode{txt, {kind: "var", text: "a"}, txt, {kind: "section", text: "b", inverted: true, spelling: ti, body: []musNode{txt}}}}})
+		}
+	}
+	return trees
+}
+
 // musDefaultMembers: templates naming one variable in lower, upper and mixed case (as a variable, an escaped
 // variable, a section and an inverted section, alone, twice in two spellings, next to another variable) x default
 // variables whose key spells the name in each of the three ways, with a value, an empty value and a value that
@@ -256,6 +279,7 @@ func (c *Ctx) musxRun() map[string]*simpleVerdict {
 	} else {
 		trees = append(trees, musLiteralTrees(3)...)
 	}
+	trees = append(trees, musPunctuationTrees()...)
 	varSets := []map[string]string{
 		{}, {"a": "v"}, {"a": ""}, {"b": "w"}, {"a": "v", "b": "w"}, {"a": "v", "b": ""}, {"A": "Up"}, {"a": "<&\"/\\\n\t>"}, {"B": "x\r\b\f", "a": "ж"}, {"a": "{{b}}", "b": "1"}, {"x_1": "X", "if1": "I"}, {"if": "yes", "unless": ""}, {"unless": "u", "a": "v"}, {"USERNAME": "U1", "aB": "v2"}, {"Username": "U2", "AB": "v3"}, {"username": "U3", "ab": "v4"},
 		{"a": " ", "b": "\n"}, {"a": "\t\r\n", "B": "\u00a0"}, {"a": "\u2003", "b": " x "},
@@ -541,8 +565,20 @@ func (c *Ctx) musxRun() map[string]*simpleVerdict {
 					}
 				}
 			}
-			for i := w; i < len(musMalformed); i += nw {
-				src := musMalformed[i]
+			// the malformed family: the listed templates and the generated ones (tags that are never closed, cut off after
+			// the opening braces, after each operator - the comment's '!' included -, after the name, after blanks and after
+			// half a closer, with double and triple braces; brace counts that do not match; sections that are not closed,
+			// ends without a beginning), shared with REUSE.mustache
+			malformed := musReuseMalformed(c.Tier == "thorough")
+			// ... and each of the generated ones once more after text and a complete tag
+			for _, s := range musReuseMalformed(false) {
+				malformed = append(malformed, "Hello, {{a}}"+s)
+			}
+			for i := w; i < len(malformed); i += nw {
+				src := malformed[i]
+				if i%41 == 0 {
+					noteSample("MUS.reference/malformed", fmt.Sprintf("%q", src))
+				}
 				m.steps = 0
 				vj.runs++
 				e, out := m.Call(set, tmpl, src)
@@ -576,7 +612,7 @@ func (c *Ctx) musxRun() map[string]*simpleVerdict {
 
 func init() {
 	register(&Rule{ID: "MUS.reference", Floor: 3,
-		Doc: "the template engine evaluated abstractly (NewMustacheTemplate, SetTemplate, EvaluateWithVariables) on templates printed from generated syntax trees (text with braces/quotes, variables, escaped variables, comments, sections and inverted sections in 8 spellings each, nested, empty, adjacent) × 19 variable maps (present, empty, white-space-only, absent, other key case, values needing escapes): the rendering equals the statement's semantics, is the same when repeated after other variable sets and leaves the instance unchanged; literal text exhaustively over {x, '{', '}', space} up to length 3 (4 in the thorough tier) alone, before and after a tag, between tags and as a section body is rendered verbatim (single braces at the start, in the middle and at the very end); instances with default variables assigned before or after the template (keys in lower, upper and mixed case against the template's spelling), rendered with Evaluate() under both iteration orders of the map, follow the same semantics; 39 malformed templates are rejected, also when submitted twice",
+		Doc: "the template engine evaluated abstractly (NewMustacheTemplate, SetTemplate, EvaluateWithVariables) on templates printed from generated syntax trees (text with braces/quotes, variables, escaped variables, comments, sections and inverted sections in 8 spellings each, nested, empty, adjacent) × 19 variable maps (present, empty, white-space-only, absent, other key case, values needing escapes): the rendering equals the statement's semantics, is the same when repeated after other variable sets and leaves the instance unchanged; literal text exhaustively over {x, '{', '}', space} up to length 3 (4 in the thorough tier) alone, before and after a tag, between tags and as a section body is rendered verbatim (single braces at the start, in the middle and at the very end), and so is text whose last character before a tag or first character after one is a backslash, '$', '#', '/', '^', '!', a quote, '&' or '.' (variable, escaped variable, comment, opening and closing tags of sections and inverted sections), the tags staying tags; instances with default variables assigned before or after the template (keys in lower, upper and mixed case against the template's spelling), rendered with Evaluate() under both iteration orders of the map, follow the same semantics; 39 listed malformed templates and a generated family (tags never closed: cut off after the opening braces, after each operator including the comment's '!', after the name, after blanks, after half a closer, double and triple braces; mismatched brace counts; unclosed and unopened sections; each alone and after text and a complete tag) are rejected, also when submitted twice",
 		Run: func(c *Ctx) []*Obligation {
 			o := newObl("MUS.reference")
 			res := c.musxRun()
